@@ -51,6 +51,17 @@ CLAIMED = {
             "Trusted: snapshot comparison; the probes restore what they wrote. Aliasing that the property does not forbid (sum_to without reduction, "
             "FlodymArray(dims, values=nd)) is not flagged.",
             "5.1"),
+    "C17": ("stocksim", "fault_enumeration",
+            "deterministic simulation with fault injection: seeded recompute histories, sys.settrace crash points inside compute/sf/pdf/set_prms, fresh-object refinement oracle after every compute",
+            "Seeded histories of {set driver, set_prms, compute, read sf/pdf} on every stock class x lifetime model x solver x grid kind, incl. two "
+            "stocks sharing one lifetime model and a definition-built stock inside an MFASystem whose compute() is re-run; faults: ill-formed "
+            "parameters and interrupts (MemoryError / KeyboardInterrupt from a sys.settrace injector) at line events inside compute / sf / pdf / "
+            "set_prms; sweep tasks enumerate every crash point of one operation and then recompute. After every compute() that returns, all "
+            "results (stock, inflow, outflow, cohort tables, sf, pdf) must be bitwise equal to those of a freshly built object holding copies of "
+            "the current inputs, and a second compute() must change nothing. Crash points of sampled operations are enumerated, histories sampled.",
+            "Trusted: the fresh object runs the same real code (history independence needs no independent DSM arithmetic). Steps that raise or "
+            "are interrupted are not judged; the next successful compute is. Crash points are Python line boundaries in flodym's own files.",
+            "5.3"),
 }
 
 PLANNED = {}
